@@ -162,6 +162,17 @@ func (fv *FuncVerifier) mergeValue(g Term, a, b Value, what string) Value {
 	for i := range a.L {
 		r.L = append(r.L, iteSameBase(g, a.L[i], b.L[i]))
 	}
+	switch {
+	case a.Guard != nil && b.Guard != nil:
+		if a.Guard.Field != b.Guard.Field || a.Guard.Lock != b.Guard.Lock {
+			panic(unsupported("merging values loaded from different guarded fields (" + what + ")"))
+		}
+		r.Guard = &guardSrc{Field: a.Guard.Field, Lock: a.Guard.Lock, Obj: Ite(g, a.Guard.Obj, b.Guard.Obj), Owner: Ite(g, a.Guard.Owner, b.Guard.Owner)}
+	case a.Guard != nil:
+		r.Guard = a.Guard
+	case b.Guard != nil:
+		r.Guard = b.Guard
+	}
 	return r
 }
 
